@@ -295,8 +295,11 @@ def main():
             header = pt.PageHeader(type=0, uncompressed_page_size=len(page), compressed_page_size=len(page), data_page_header=daph)
             md = pt.ColumnMetaData(type=ptype, path_in_schema=["c"], codec=0, num_values=c["n"], encodings=[8],
                                    total_uncompressed_size=len(page), total_compressed_size=len(page), data_page_offset=0)
+            class Dic:              # the dictionary the chunk's dictionary page gave (the readers look at its size)
+                def __len__(self):
+                    return int(c.get("dic_len", 1 << 31))
             with Spy() as spy:
-                defi, rep, values = core.read_data_page(io.BytesIO(page), helper, header, md, selfmade=bool(c.get("selfmade")))
+                defi, rep, values = core.read_data_page(io.BytesIO(page), helper, header, md, selfmade=bool(c.get("selfmade")), dic=Dic())
             hold(values)
             if defi is not None:
                 hold(defi)
@@ -324,6 +327,9 @@ def main():
             class Ident:            # a dictionary whose entry number k is k: the output shows the decoded indices
                 def __getitem__(self, idx):
                     return np.asarray(idx).astype(np.int64)
+
+                def __len__(self):
+                    return int(c.get("dic_len", 1 << 31))
             if c.get("use_cat"):
                 # categorical output: the page's indices ARE the result (codes array; nulls become -1)
                 assign = np.full(c["n"], -7, dtype=c["adt"])
@@ -374,7 +380,7 @@ def main():
                                          definition_level_encoding=pt.Encoding.RLE, repetition_level_encoding=pt.Encoding.RLE)
                 header = pt.PageHeader(type=0, uncompressed_page_size=len(page), compressed_page_size=len(page), data_page_header=daph)
                 try:
-                    defi, rep, values = core.read_data_page(io.BytesIO(page), helper, header, md, selfmade=selfmade)
+                    defi, rep, values = core.read_data_page(io.BytesIO(page), helper, header, md, selfmade=selfmade, dic=range(c["ncat"]))
                     out["v1/%s" % selfmade] = [int(x) for x in np.asarray(values)]
                 except Exception as e:       # noqa
                     out["v1/%s" % selfmade] = ["exc", type(e).__name__, str(e)[:100]]
@@ -390,6 +396,9 @@ def main():
                         def __getitem__(self, idx):
                             # (a dictionary of ncat entries: label k = k; numpy's negative indexing included)
                             return np.arange(c["ncat"], dtype=np.int64)[np.asarray(idx)]
+
+                        def __len__(self):
+                            return c["ncat"]
                     assign = np.full(n, -7, dtype=cdt) if use_cat else np.full(n, -7, dtype=np.float64 if c["optional"] else np.int64)
                     try:
                         core.read_data_page_v2(io.BytesIO(page), helper, col_se, h2, md, Ident(), assign, 0, use_cat, 0, ph,
